@@ -67,13 +67,15 @@ PROGRAMS = {
     'append,get||set': dict(names=[['append', 'get'], ['set']], constraints=all_cas0),
     'cas-append||cas-append': dict(names=[['append'], ['append']]),
     'cas-append||set': dict(names=[['append'], ['set']], constraints=lambda progs, st: [progs[1][0][1].cas == 0]),
+    'cas-append||cas-set': dict(names=[['append'], ['set']]),
+    'cas-incr||cas-set': dict(names=[['increment'], ['set']]),
     'cas-incr||set': dict(names=[['increment'], ['set']], constraints=lambda progs, st: [progs[1][0][1].cas == 0]),
     'cas-replace||set': dict(names=[['replace'], ['set']], constraints=lambda progs, st: [progs[1][0][1].cas == 0]),
     'add||add||add': dict(names=[['add'], ['add'], ['add']], constraints=all_cas0),
     'incr||incr||get': dict(names=[['increment'], ['increment'], ['get']], constraints=all_cas0),
 }
 QUICK = ['add||add', 'incr||incr', 'decr||incr', 'append||append', 'prepend||append', 'replace||delete', 'append||delete', 'add||set', 'add||get',
-         'cas-append||set', 'cas-incr||set', 'cas-replace||set']
+         'cas-append||set', 'cas-incr||set', 'cas-replace||set', 'cas-append||cas-set']
 
 
 def run_item(ck, it, tier):
